@@ -350,7 +350,7 @@ def walk_names(rng, files, by_id):
 # =============================================================================================
 # Part 2 - the check
 # =============================================================================================
-THEOREMS = ["C27_merge_perm", "C27_split_perm", "C27_lookup_is_fold", "C27_drivers_agree",
+THEOREMS = ["C27_merge_perm", "C27_split_perm", "C27_lookup_is_fold", "C27_drivers_agree", "C27_compiler_batches",
             "C27_flat_respects_lookup", "C27_flatten_perm", "C27_flatten_split_perm",
             "C27_flatten_perm_partial", "C27_flat_example", "C27_checked_hypotheses_sound",
             "C27_incompatible_is_order_dependent", "C27_example"]
@@ -391,15 +391,45 @@ def all_perms(n):
     return [list(p) for p in itertools.permutations(range(n))]
 
 
+def compositions(n):
+    """All ways to cut a list of n files into >= 2 consecutive non-empty groups (group sizes)."""
+    out = []
+    for mask in range(1, 2 ** (n - 1)):
+        sizes, cur = [], 1
+        for b in range(n - 1):
+            if mask >> b & 1:
+                sizes.append(cur)
+                cur = 1
+            else:
+                cur += 1
+        sizes.append(cur)
+        out.append(sizes)
+    return out
+
+
+def inc_plan(rng, n):
+    """(order, group sizes) pairs for compiler.parse_all called several times on one tree: every partition of
+    every permutation when that is at most 24 runs, else one random partition per permutation."""
+    perms, comps = all_perms(n), compositions(n)
+    if not comps:
+        return []
+    if len(perms) * len(comps) <= 24:
+        return [[o, c] for o in perms for c in comps]
+    return [[o, rng.choice(comps)] for o in perms]
+
+
 def corpus_cases():
     out = []
     for style in ("api", "compiler"):
         out.append({"kind": "corpus", "files": CORPUS_FILES, "orders": all_perms(3), "models": ["P.Base", "P.M", "P.Q.Sub"],
+                    "inc": [[o, c] for o in all_perms(3) for c in compositions(3)],
                     "mono": CORPUS_MONO, "walk": ["P/package.mo", "P/M.mo", "P/Q/package.mo"], "style": style,
                     "compat": True})
         out.append({"kind": "corpus", "files": CORPUS2_FILES, "orders": all_perms(3), "models": ["P.M", "P.Q.S"],
+                    "inc": [[o, c] for o in all_perms(3) for c in compositions(3)],
                     "mono": CORPUS2_MONO, "walk": ["a/S.mo", "M.mo", "z/R.mo"], "style": style, "compat": True})
         out.append({"kind": "corpus", "files": CORPUS3_FILES, "orders": all_perms(2), "models": ["P.E.X"],
+                    "inc": [[o, c] for o in all_perms(2) for c in compositions(2)],
                     "mono": CORPUS3_MONO, "walk": ["P/package.mo", "P/E/X.mo"], "style": style, "compat": True})
     return out
 
@@ -417,6 +447,7 @@ def gen_case(rng):
     return {"kind": "split", "files": texts, "orders": orders, "extra_orders": extra,
             "models": model_paths(roots), "mono": render_file((), roots, frozenset()),
             "walk": walk_names(rng, files, by_id), "style": rng.choice(["api", "compiler"]), "compat": True,
+            "inc": inc_plan(rng, n),
             "meta": {"within_depths": [len(f["within"]) for f in files],
                      "classes_per_file": [len(f["ids"]) for f in files],
                      "packages": sum(1 for x in walk(roots) if x["kind"] == "package")}}
@@ -485,6 +516,27 @@ def judge(case, res):
             return ("differs-from-unsplit",
                     "flattened %s from the split library (every order) differs from the unsplit library" % m,
                     {"model": m, "order_a": o0, "flat_a": r0["flat"][m], "flat_unsplit": mono[m]})
+    for rec in res.get("inc") or []:
+        if "exc" in rec:
+            return ("driver-raises", "compiler.parse_all in %d calls (order %s, groups %s) failed: %s"
+                    % (len(rec["groups"]), rec["order"], rec["groups"], rec["exc"]), {"order_a": rec["order"]})
+        if rec.get("one_nfiles") != nfiles or rec.get("one_nerr"):
+            return ("driver-files", "compiler.parse_all parsed %s of %d files (%s errors)"
+                    % (rec.get("one_nfiles"), nfiles, rec.get("one_nerr")), {"order_a": rec["order"]})
+        for m in case["models"]:
+            if "one_flat" in rec and rec["one_flat"][m] != r0["flat"][m]:
+                return ("order-dependent-flatten",
+                        "flattened %s after ONE compiler.parse_all call with file order %s differs from order %s"
+                        % (m, rec["order"], o0),
+                        {"model": m, "order_a": o0, "order_b": rec["order"], "driver": "compiler.parse_all",
+                         "flat_a": r0["flat"][m], "flat_b": rec["one_flat"][m]})
+            if not rec.get("same", True) and rec["inc_flat"][m] != rec["ref_flat"][m]:
+                return ("batch-dependent-flatten",
+                        "flattened %s differs when the files (order %s) are added by %d successive compiler.parse_all "
+                        "calls on one tree (group sizes %s) instead of one call"
+                        % (m, rec["order"], len(rec["groups"]), rec["groups"]),
+                        {"model": m, "order_a": rec["order"], "groups": rec["groups"], "driver": "compiler.parse_all",
+                         "flat_a": rec["ref_flat"][m], "flat_b": rec["inc_flat"][m]})
     w = res.get("walk")
     if case.get("walk") and w is not None:
         if "exc" in w:
@@ -627,7 +679,7 @@ def run_children(ctx, cases, workers=4):
 
 
 def child_view(case):
-    c = {k: case[k] for k in ("files", "models", "mono", "walk", "style") if k in case}
+    c = {k: case[k] for k in ("files", "models", "mono", "walk", "style", "inc") if k in case}
     c["orders"] = case["orders"] + case.get("extra_orders", [])
     c["flatten"] = case.get("flatten", True)
     return c
@@ -657,7 +709,8 @@ def run(ctx):
     # ---- (a) property oracle on the implementation ----
     stats = {"files": {}, "models_flattened": 0, "models_raising": 0, "permutations_merged": 0,
              "walk_order_sorted": 0, "walk_order_unsorted": 0, "style": {"api": 0, "compiler": 0},
-             "within_depth": {}, "several_classes_behind_one_within": 0, "outside_cases": n_out}
+             "within_depth": {}, "several_classes_behind_one_within": 0, "outside_cases": n_out,
+             "incremental_parse_all_runs": 0, "incremental_tree_differs_but_flat_equal": 0}
     nontrivial = set()
     unparsed = []
     for i, (c, r) in enumerate(zip(cases, results)):
@@ -679,6 +732,8 @@ def run(ctx):
         stats["files"][nf] = stats["files"].get(nf, 0) + 1
         stats["style"][c["style"]] += 1
         stats["permutations_merged"] += len(c["orders"])
+        stats["incremental_parse_all_runs"] += len(r.get("inc") or [])
+        stats["incremental_tree_differs_but_flat_equal"] += sum(1 for x in (r.get("inc") or []) if not x.get("same", True))
         for d in c.get("meta", {}).get("within_depths", []):
             stats["within_depth"][d] = stats["within_depth"].get(d, 0) + 1
         if any(k > 1 for k in c.get("meta", {}).get("classes_per_file", [])[1:]):
